@@ -53,9 +53,33 @@ Print Assumptions C08_guards.
    Scalar helpers (Model/Funcs.v, 50 helpers incl. divi/modi by zero, substr near MaxInt64, hi of
    MinInt64): no argument list of any length, no argument values, no oracle text make the model
    panic; the only precondition is that strconv's text for hf is non-empty. *)
-Theorem C08_scalar_total : forall f args orc, (f = Hf -> orc <> []) -> Funcs.eval (f, args, orc) <> Panic.
-Proof. exact scalar_total. Qed.
+Theorem C08_scalar_total : forall f args orc, (f = Hf -> orc <> []) -> scalar_eval f args orc <> Panic.
+Proof. exact scalar_eval_total. Qed.
 Print Assumptions C08_scalar_total.
+(* the integer folds check their operands left to right and the first failing check decides the marker
+   (/repo 2e0440e): operand 0 must be an integer, then operand 1 (integer, then non-zero for divi / modi), then
+   the rest in the same way; whether an operand is a constant does not matter.  This evaluator agrees with
+   Model/Funcs.v f_ifold for the folds without division and whenever no constant operand is a non-integer. *)
+Theorem C08_ifold_order : forall f a0 a1 rest,
+  f_ifold_ltr f (a0 :: a1 :: rest) =
+  match atoi (a_val a0) with
+  | None => Ok ErrorNum
+  | Some v0 =>
+      match atoi (a_val a1) with
+      | None => Ok ErrorNum
+      | Some v1 => match iop f v0 v1 with
+                   | Some x => ifold_loop f x rest
+                   | None => Ok ErrorValue
+                   end
+      end
+  end.
+Proof. exact ifold_ltr_order. Qed.
+Theorem C08_ifold_agrees : forall f args,
+  (f <> Divi -> f <> Modi -> f_ifold_ltr f args = f_ifold f args) /\
+  (existsb const_bad_int args = false -> f_ifold_ltr f args = f_ifold f args).
+Proof. intros f args. split; [exact (ifold_ltr_nodiv f args)|exact (ifold_ltr_agrees f args)]. Qed.
+Print Assumptions C08_ifold_order.
+Print Assumptions C08_ifold_agrees.
 (* repeat: the repaired helper never reaches strings.Repeat with a negative count or an overflowing
    length, and never builds more than repeat_cap bytes; the code as pinned panics ({repeat a -1}) *)
 Theorem C08_repeat_total : forall args, f_repeat true args <> Panic.
@@ -162,5 +186,7 @@ Example C08_examples :
   eval_name "repeat" [A true [97%N; 98%N] None; A false [51%N] None] (mkOrc [] false false 0) = Some (Ok [97%N; 98%N; 97%N; 98%N; 97%N; 98%N]) /\
   eval_name "divi" [A false [49%N] None; A false [48%N] None] (mkOrc [] false false 0) = Some (Ok M_ErrorValue) /\
   eval_name "bar" [A false [53%N] None; A true [53%N] None; A true [49%N] None] (mkOrc [] false true 13) = Some (Ok (fullBlock ++ [226%N; 150%N; 140%N])) /\
+  eval_name "divi" [A true (of_str "-4294967296") None; A true (of_str "0") None; A true (of_str "1.5") None] (mkOrc [] false false 0) = Some (Ok M_ErrorValue) /\
+  eval_name "divi" [A true (of_str "8") None; A true (of_str "1.5") None; A true (of_str "0") None] (mkOrc [] false false 0) = Some (Ok M_ErrorNum) /\
   eval_name "format" [] (mkOrc [] false false 0) = None /\ modelled "format" = false /\ modelled "@map" = true.
 Proof. vm_compute. repeat split; reflexivity. Qed.
